@@ -116,7 +116,10 @@ func HarnessC20Unlikely() {
 		exempt = `<table><tr><td ` + mk[0] + `>epsilon</td></tr></table>`
 	}
 	exemptN := strings.Replace(exempt, mk[0], mk[1], 1)
-	order := vx.Choose("order", 2)
+	order := 0
+	if exempt != "" {
+		order = vx.Choose("order", 2)
+	}
 	wrap := func(a, b string) string {
 		if order == 0 {
 			return a + b
